@@ -126,3 +126,28 @@ pub fn parse_mechanism(field: &[u8]) -> Result<String, String> {
         .map(|m| m.to_string())
         .map_err(|e| format!("{:?}", e))
 }
+
+/// Cloneable handle on the queue's shared part: what the socket backends hold
+/// (`fair_queue.inner()`), usable while the queue itself is being polled.
+pub struct FairQueueHandle<S, K: Clone>(Arc<parking_lot::Mutex<crate::fair_queue::QueueInner<S, K>>>);
+
+impl<S, K: Clone> Clone for FairQueueHandle<S, K> {
+    fn clone(&self) -> Self {
+        FairQueueHandle(self.0.clone())
+    }
+}
+
+impl<S, K: Clone + Eq + Hash> FairQueueHandle<S, K> {
+    pub fn insert(&self, k: K, s: S) {
+        self.0.lock().insert(k, s);
+    }
+    pub fn remove(&self, k: &K) {
+        self.0.lock().remove(k);
+    }
+}
+
+impl<S, K: Clone> FairQueueProbe<S, K> {
+    pub fn handle(&self) -> FairQueueHandle<S, K> {
+        FairQueueHandle(self.0.inner())
+    }
+}
